@@ -466,7 +466,7 @@ _PYFUN = {
     'cos': math.cos, 'sin': math.sin, 'exp': math.exp,
     'log': lambda x: math.log(x) if x > 0 else float('nan'),
     'arccos': lambda x: math.acos(x), 'arctan2': math.atan2,
-    'tan': math.tan,
+    'tan': math.tan, 'trunc': lambda x: math.trunc(x),
     'pow': lambda x, p: math.pow(x, p) if x >= 0 else float('nan'),
 }
 
